@@ -855,3 +855,57 @@ def rule_sym1(ctx):
                     instance=f"{f.qualname}:call")
     if sites < 2:
         raise AnalysisError("SYM1: fewer than 2 sym_index call sites")
+
+
+# ---------------------------------------------------------------------------
+def rule_wp1(ctx):
+    r = ctx.r
+    r.rule("WP1", "how a word is split into letters does not depend on "
+                  "which generators exist: parse_word, _word_value and the "
+                  "label evaluation of _automaton_accepted never test "
+                  "`<word / label> in self.generators` to decide whether to "
+                  "parse. A string that spells both a generator name and a "
+                  "product of shorter names ('ab' next to 'a', 'b') must "
+                  "mean the product, or rho(uv) != rho(u) rho(v)")
+    sites = 0
+    for q in ("Representation.parse_word", "Representation._word_value",
+              "Representation._automaton_accepted",
+              "Representation.__getitem__", "Representation.element"):
+        try:
+            f = ctx.p.get_function(REP, q)
+        except AnalysisError:
+            continue
+        r.analysed(f)
+        sites += 1
+        bad = None
+        for n in ast.walk(f.node):
+            if isinstance(n, ast.Compare) and any(
+                    isinstance(o, (ast.In, ast.NotIn)) for o in n.ops):
+                right = n.comparators[0]
+                txt = dotted(right)
+                if txt in ("self.generators", "self.generators.keys()",
+                           "self._generators"):
+                    left = n.left
+                    # `letter in self.generators` inside the per-letter loop
+                    # of an evaluator is a lookup guard, not a parsing
+                    # decision: it is a parsing decision when the tested
+                    # value is the whole word / label parameter
+                    if isinstance(left, ast.Name) and (
+                            left.id in f.params or left.id in ("label",
+                                                               "word")):
+                        bad = n
+        if bad is not None:
+            r.violation(
+                "WP1", f"{f.fq}|{dotted(bad)[:60]}", loc(f, bad),
+                dotted(bad)[:120],
+                f"`{dotted(bad)}` decides whether the string is parsed: with "
+                "generators 'a', 'b' and a third one named 'ab', rep['ab'] "
+                "(and every automaton label 'ab') is evaluated as that "
+                "generator instead of rho(a) rho(b), so the homomorphism "
+                "law fails for colliding names",
+                instance=f"{q}:parse-independent")
+        else:
+            r.ok("WP1", f"{q}:parse-independent", loc(f, f.node), "",
+                 "no generator-table test on the whole word")
+    if sites < 2:
+        raise AnalysisError("WP1: parsing functions have vanished")
